@@ -224,6 +224,22 @@ class G:
         self.next_var += 1
         h = r.choice([3, 4])
         k = r.random()
+        if k < 0.06 and getattr(self, "AND", False) and not self.textonly:
+            # a qualified assignment (no onmatch): written and voted as the assignment table of C14 says; AND mode only
+            names = r.sample(["latch", "onchange", "increase", "decrease", "notnone"], r.choice([1, 1, 2]))
+            if "increase" in names and "decrease" in names:
+                names.remove("decrease")
+            if r.random() < 0.2:
+                names.append("nocontrib")
+            if "increase" in names or "decrease" in names or r.random() < 0.5:
+                i = r.choice([1, 2])
+                e, qe = f"int(#{HDR[i]})", f"(NInt (NHdr {i}%nat))"
+            else:
+                i = r.choice([3, 4, 5])
+                e, qe = f"#{HDR[i]}", f"(NHdr {i}%nat)"
+            flag = lambda n: "true" if n in names else "false"
+            qs = f"(Assign.mkQ false {flag('latch')} {flag('onchange')} {flag('increase')} {flag('decrease')} {flag('notnone')} false {flag('nocontrib')})"
+            return (f"@v{v}." + ".".join(names) + f" = {e}", f"(AssignQ {qs} {v} {qe})")
         if k < 0.07 and not conditional:
             # tally() with two arguments: one store per argument (skipped for a blank value) and one under the values joined by '|';
             # the second argument is the optional column x (absent in short rows, sometimes empty)
@@ -315,7 +331,9 @@ TEXT_SCANS = ["*", "0*", "0-3", "0+2+5", "*", "0-4", "0*"]
 
 def gen_program(rng, ncomp=None):
     textonly = rng.random() < 0.2
+    AND = rng.random() < 0.75
     g = G(rng, textonly=textonly)
+    g.AND = AND
     comps = [g.comp() for _ in range(ncomp or rng.choice([1, 2, 2, 3, 3, 4, 5, 6]))]
     if rng.random() < 0.15:
         # a stack that is pushed on every line and popped on some: push ... cond -> pop (same stack)
@@ -331,7 +349,6 @@ def gen_program(rng, ncomp=None):
         g.next_var += 1
         comps.insert(rng.randrange(len(comps) + 1), (f'push("k{k}", {e})', f"(CAct (PushN {k} {qe}))"))
         comps.append((f'{b} -> @p{v} = pop("k{k}")', f"(CWhen {qb} (Pop {v} {k}))"))
-    AND = rng.random() < 0.75
     cw = rng.random() < 0.1
     scan = rng.choice(TEXT_SCANS if textonly else SCANS)
     return {"comps": comps, "AND": AND, "cw": cw, "scan": scan, "uses_lt": g.uses_lt, "textonly": textonly}
@@ -348,7 +365,18 @@ def corner_programs():
     A = [HDR[:], ["r1", "1", "2", "a", "b", "z"], ["r2", "1", "2", "a", "b", "z", "extra"], ["r3", "1", "2", "a", "b"], ["r4", "1", "2", "a", " ", "z"], ["r5", "0", "2", "a", "b", "0"]]
     # records that lack their numeric cells: a missing cell is None — not above / below anything, 0 to add() and int(), pushed as None
     S = [HDR[:], ["r1", "4"], ["r2"], ["r3", "2", "2", "a", "b"], ["r4", "0"]]
+    N3 = [HDR[:], ["r1", "4", "9", "a", "b"], ["r2", "3", "1", "a", "b"], ["r3", "200", "7", "q", "b"], ["r4", "2", "2", "a", "q"]]
+    Q = lambda **k: "(Assign.mkQ false %s %s %s %s %s false %s)" % tuple("true" if k.get(n) else "false" for n in ("latch", "onchange", "increase", "decrease", "notnone", "nocontrib"))
+    INC = [HDR[:]] + [[f"r{i}", str(v), str(9 - v), "a", "b"] for i, v in enumerate([0, 1, 2, 2, 5, 5, 3, 5, 7], 1)]
     return [
+        # qualified assignments (the table of C14 inside a whole csvpath): increase over a column that repeats its running maximum,
+        # latch whose first value is 0, onchange, decrease, notnone over a column some records lack
+        P([("@v1.increase = int(#n)", f"(CAgg (AssignQ {Q(increase=True)} 1 (NInt (NHdr 1))))")], rows=INC),
+        P([("@v1.latch = int(#n)", f"(CAgg (AssignQ {Q(latch=True)} 1 (NInt (NHdr 1))))"), ("@v2.decrease = int(#m)", f"(CAgg (AssignQ {Q(decrease=True)} 2 (NInt (NHdr 2))))")], rows=INC),
+        P([("@v1.onchange = int(#n)", f"(CAgg (AssignQ {Q(onchange=True)} 1 (NInt (NHdr 1))))"), ("@v3.notnone.nocontrib = #x", f"(CAgg (AssignQ {Q(notnone=True, nocontrib=True)} 3 (NHdr 5)))")], rows=INC),
+        # and() / or() with three arguments: the third one counts
+        P([("and(gt(#n, 0), gt(#m, 0), gt(#n, 100))", "(CB (BAnd (BCmp Gt (NHdr 1) (NLit 0)) (BAnd (BCmp Gt (NHdr 2) (NLit 0)) (BCmp Gt (NHdr 1) (NLit 100)))))")], rows=N3),
+        P([("or(gt(#n, 1000), gt(#m, 1000), gt(#n, 100))", "(CB (BOr (BCmp Gt (NHdr 1) (NLit 1000)) (BOr (BCmp Gt (NHdr 2) (NLit 1000)) (BCmp Gt (NHdr 1) (NLit 100)))))")], rows=N3),
         P([("lt(#m, 1)", "(CB (BCmp Lt (NHdr 2) (NLit 1)))")], rows=S),
         P([("gt(#m, 1)", "(CB (BCmp Gt (NHdr 2) (NLit 1)))"), ("gte(1, #m)", "(CB (BCmp Gte (NLit 1) (NHdr 2)))")], rows=S, AND=False),
         P([("above(add(#n, #m), 3)", "(CB (BCmp Gt (NAdd (NHdr 1) (NHdr 2)) (NLit 3)))"), ("@v1 = add(#m, 1)", "(CAct (AssignN 1 (NAdd (NHdr 2) (NLit 1))))")], rows=S),
